@@ -204,6 +204,22 @@ pub fn ultra_fine(prop: &'static str, seed: u64, index: u64) -> Scenario {
     scn
 }
 
+/// Microscopic resolution: fraction 1e-8 (a tenth of a resolution segment is far below 1e-6 in
+/// absolute terms) with steps of ten thousand segments — an absolute floor or cap on what is a
+/// relative quantity shows up as a coverage gap, no obstacle needed.
+pub fn micro_fine(prop: &'static str, seed: u64, index: u64) -> Scenario {
+    let mut scn = ultra_fine(prop, seed, index);
+    if let SpaceSpec::RV { frac, .. } = &mut scn.space {
+        *frac = 1e-8;
+    }
+    let l = crate::spaces::geo_for(&scn.space).unwrap().lvs();
+    scn.planner.max_distance = 1.0e4 * l;
+    scn.planner.search_radius = 1.5e4 * l;
+    scn.calls = vec![CallSpec::Setup { problem: 0 }, solve_budget(3)];
+    scn.family = "micro_fine".into();
+    scn
+}
+
 /// Lattice angles: SO(2), samples scripted over multiples of pi/4, step and connection radius
 /// longer than half a turn, RRT-Connect or PRM (whose goal-tree edges / links are traversed
 /// against the direction they were checked in). End points exactly half a turn apart — where the
@@ -720,6 +736,39 @@ impl Check for PathProp {
                     with_histories(&mut scn, &mut rng, o.max_iters.min(120), &["open", "open", "balls"], false);
                 }
             }
+            "C05" if index % 40 == 3 => {
+                // RRT-Connect: setup(P0), solve, setup(P1) whose goal sampler fails on the draw
+                // that setup makes (today: a panic, which the caller catches), solve again. P1
+                // lives in a space with other metric weights: whatever tree the planner then
+                // works on must not mix edges measured in the old metric into a path for P1.
+                let mut rng2 = Xo::new(mix(seed, "C05-setup-fault", index));
+                let mut o2 = self.opts(&mut rng2, tier);
+                o2.planner = Some(PlannerKind::RRTConnect);
+                o2.space_kinds = vec!["SE2", "SE3", "Compound"];
+                o2.families = vec!["open", "balls"];
+                o2.max_iters = 80;
+                o2.goal_sampler = Some(GoalSampler::Harness);
+                scn = gen::base(&mut rng2, self.id, seed, index, &o2);
+                second_problem_same_world_v(&mut scn, &mut rng2, false, true, true);
+                let k = *rng2.pick(&[0.1, 0.2, 5.0, 10.0]);
+                if let Some(sp) = &mut scn.problems[1].space {
+                    match sp {
+                        SpaceSpec::SE2 { weight, .. } | SpaceSpec::SE3 { weight, .. } => *weight *= k,
+                        SpaceSpec::Compound { weights, .. } => {
+                            let i = rng2.below(weights.len() as u64) as usize;
+                            weights[i] *= k;
+                        }
+                        _ => {}
+                    }
+                }
+                let l = crate::spaces::geo_for(&scn.space).unwrap().lvs();
+                let ext = scn.param("ext").unwrap_or(1.0);
+                let (a, b) = (gen::affordable_iters(&scn.planner, l, ext, 20 + rng2.below(60)), gen::affordable_iters(&scn.planner, l, ext, 20 + rng2.below(60)));
+                scn.calls = vec![CallSpec::Setup { problem: 0 }, solve_budget(a), CallSpec::Setup { problem: 1 }, solve_budget(b)];
+                scn.params.insert("goal_sampler_fails_in_second_setup".into(), 1.0);
+                scn.params.insert("resume_after_setup_panic".into(), 1.0);
+                scn.family = format!("setup_fault_then_solve/{}", scn.family);
+            }
             "C05" if index % 5 == 4 => {
                 with_histories(&mut scn, &mut rng, o.max_iters.min(120), &["open", "balls", "shell_door"], false);
             }
@@ -760,6 +809,24 @@ impl Check for PathProp {
                     }
                     scn.problems[0].goal.sampler = GoalSampler::Harness;
                     scn.problems[0].goal.radius *= rng.range(1.0, 3.0);
+                }
+            }
+            "C06" if index % 1009 == 11 => {
+                // A legal but very fine resolution (fraction 2e-5) and a full-width wall three
+                // resolution segments thick between start and goal (sealed): the one long
+                // extension toward the goal takes several hundred thousand validity queries
+                // and must be rejected; a step count capped or floored short of that steps
+                // over the wall and "reaches" the sealed goal.
+                let mut s2 = ultra_fine(self.id, seed, index);
+                if let SpaceSpec::RV { bounds: Some(b), .. } = &s2.space {
+                    let l = crate::spaces::geo_for(&s2.space).unwrap().lvs();
+                    let mid = 0.5 * (b[0].0 + b[0].1);
+                    s2.worlds[0].obstacles = vec![Obstacle::Wall { axis: 0, lo: mid, hi: mid + 3.0 * l, gap: None }];
+                    s2.params.insert("sealed".into(), 1.0);
+                    s2.params.insert("start_invalid".into(), 0.0);
+                    s2.family = "sealed_goal".into();
+                    s2.params.insert("fine_resolution_wall".into(), 1.0);
+                    scn = s2;
                 }
             }
             "C06" => {
@@ -878,6 +945,25 @@ impl Check for PathProp {
             })
         } else {
             None
+        };
+        let derived: Option<Scenario> = if scn.param("goal_sampler_fails_in_second_setup").is_some() {
+            // dry run: the ordinal (over the scenario) of the sample_goal call the second setup makes
+            let dry = run(scn, &RunOpts { snapshots: false, ..Default::default() });
+            let second = scn.calls.iter().enumerate().filter(|(_, c)| matches!(c, CallSpec::Setup { .. })).map(|(i, _)| i).nth(1);
+            second.and_then(|ci| dry.calls.get(ci)).and_then(|call| {
+                let before = dry.log[..call.ev_lo].iter().filter(|e| matches!(e, Ev::SG(_))).count() as u64;
+                let inside = dry.log[call.ev_lo..call.ev_hi].iter().filter(|e| matches!(e, Ev::SG(_))).count();
+                if inside > 0 {
+                    let mut d = scn.clone();
+                    d.faults.push(FaultSpec::GoalSamplerErr { at_call: before + 1 });
+                    rep.probe("goal_sampler_fault_in_setup");
+                    Some(d)
+                } else {
+                    None
+                }
+            })
+        } else {
+            derived
         };
         let scn: &Scenario = derived.as_ref().unwrap_or(scn);
         let out = run(scn, &RunOpts::default());
@@ -1376,7 +1462,7 @@ fn c08_layout(tier: Tier) -> C08Layout {
     let max_k = if tier == Tier::Thorough { 64 } else { 16 };
     let t = seq_count(4, max_len);
     let p = seq_count(6, max_len);
-    C08Layout { max_len, n_seq: [t, t, t, p], max_k, n_fault: 4 * 2 * max_k, n_param: 4 * 6 }
+    C08Layout { max_len, n_seq: [t, t, t, p], max_k, n_fault: 4 * 2 * max_k, n_param: 4 * 7 }
 }
 
 fn c08_small_world(rng: &mut Xo, kind: PlannerKind, seed: u64, index: u64) -> Scenario {
@@ -1489,9 +1575,16 @@ impl Check for C08 {
         i -= l.n_fault;
         // (3) parameter faults
         if i < l.n_param {
-            let kind = PlannerKind::ALL[(i / 6) as usize];
+            let kind = PlannerKind::ALL[(i / 7) as usize];
             let mut scn = c08_small_world(&mut rng, kind, seed, index);
-            match i % 6 {
+            match i % 7 {
+                6 => {
+                    // a negative (or negative-zero, or tiny) roadmap build time: nothing is
+                    // sampled, the calls still return, the query reports the unsampled space
+                    scn.planner.prm_timeout_s = *rng.pick(&[-1.0, -0.5, -1e-9, -1e12, -f64::MIN_POSITIVE, -0.0]);
+                    scn.calls = if kind == PlannerKind::PRM { vec![CallSpec::Setup { problem: 0 }, CallSpec::Construct { stalls: vec![] }, solve_budget(5)] } else { vec![CallSpec::Setup { problem: 0 }, solve_budget(5)] };
+                    scn.family = "negative_build_time".into();
+                }
                 0 => {
                     scn.planner.goal_bias = -0.1;
                     scn.family = "goal_bias_out_of_range".into();
